@@ -47,7 +47,7 @@ func NewMemoryHeightIterator(dataset map[string]string, start string, end string
 	endIdx := len(sortedKeys) - 1
 	if end != "" {
 		for ; endIdx > 0 && endIdx > startIdx; endIdx-- {
-			if sortedKeys[endIdx] <= end {
+			if sortedKeys[endIdx] < end { // end is exclusive: [start, end)
 				break
 			}
 		}
